@@ -115,6 +115,13 @@ impl Fill {
                 }
                 b""
             }
+            4 if self.len >= 3 => {
+                // the whole value is itself an encoded TLV (type 0x04) of exactly this size
+                v[0] = 0x04;
+                let inner = (self.len - 3).min(65535) as u16;
+                v[1..3].copy_from_slice(&inner.to_be_bytes());
+                b""
+            }
             _ => b"",
         };
         let n = piece.len().min(v.len());
